@@ -484,6 +484,9 @@ func (c17) Run(e *Env) {
 			}
 		}
 		emptyHist := o.Kind == "timer" && o.Timer.Histogram != nil && len(o.Timer.Histogram) == 0
+		if emptyHist && len(mine) > 0 {
+			e.Failf("C17/dropped-series-reported:"+kind, "%s: %s is a histogram timer under timer-histogram-limit 0, which reports nothing (no buckets, no statistics), yet %d points are sent for it, the first %s", kind, k, len(mine), canonPoint(mine[0]))
+		}
 		if len(mine) == 0 {
 			if emptyHist {
 				continue // timer-histogram-limit 0: documented to drop the series
